@@ -11,37 +11,229 @@ import (
 	"verif/internal/flow"
 )
 
-// c08fn is one method of CircuitBreaker prepared for the flow engine.
+// c08fn is one method of CircuitBreaker prepared for the flow engine, together with the
+// same-package helpers it calls (they are interpreted in place by the engine and searched by
+// the role finders), except the transition function, which is summarised.
 type c08fn struct {
-	v     *c08env
-	f     *flow.Func
-	fd    *ast.FuncDecl
-	cons  string
-	recv  types.Object
-	recvR string
-	defs  c08defs
-	// stateR: renderings that denote the breaker state — the field itself first, then local
-	// aliases (st := cb.state) which keep denoting the *entry* state after a transition.
+	v      *c08env
+	f      *flow.Func
+	fd     *ast.FuncDecl
+	cons   string
+	recv   types.Object
+	recvR  string
+	bodies []*flow.Func          // f and the helpers it reaches (not through transitTo)
+	recvs  map[types.Object]bool // receivers of the CircuitBreaker methods among bodies
+	recvRs []string              // their renderings (recvR first)
+	defs   c08defs
+	// stateR: renderings that denote the breaker state — the field through every receiver
+	// first (nField entries), then local aliases (st := cb.state) which keep denoting the
+	// *entry* state after a transition.
 	stateR    []string
+	nField    int
 	aliasDefs map[types.Object]bool
+	inline    func(*ast.CallExpr, *types.Func) *flow.Func
+	rels      []*c08relSet
+}
+
+// c08relSet is a named group of role comparisons whose knowledge is mirrored into event keys
+// (see mirror); objs are the variables / fields its operands mention.
+type c08relSet struct {
+	name string
+	cms  []c08cmp
+	objs map[types.Object]bool
+	// keepOnTransit: not about a field the transition function rewrites
+	keepOnTransit bool
+}
+
+// register makes a group of comparisons readable through rel (facts + mirror).
+func (m *c08fn) register(name string, cms []c08cmp, keepOnTransit bool) {
+	rs := &c08relSet{name: name, cms: cms, objs: map[types.Object]bool{}, keepOnTransit: keepOnTransit}
+	for _, cm := range cms {
+		ast.Inspect(cm.node, func(n ast.Node) bool {
+			switch x := n.(type) {
+			case *ast.Ident:
+				if o := c08obj(m.f, x); o != nil {
+					if _, isVar := o.(*types.Var); isVar {
+						rs.objs[o] = true
+					}
+				}
+			}
+			return true
+		})
+	}
+	m.rels = append(m.rels, rs)
+}
+
+var c08relNames = []string{"lt", "le", "gt", "ge", "eq", "ne"}
+
+func (r c08rel) bits() []bool { return []bool{r.lt, r.le, r.gt, r.ge, r.eq, r.ne} }
+
+// rel: what the state knows about the named comparison group — the engine's facts or their mirror.
+func (m *c08fn) rel(st *flow.State, name string) c08rel {
+	for _, rs := range m.rels {
+		if rs.name != name {
+			continue
+		}
+		r := c08relOf(m.f, st, rs.cms)
+		var e c08rel
+		p := []*bool{&e.lt, &e.le, &e.gt, &e.ge, &e.eq, &e.ne}
+		for i, n := range c08relNames {
+			*p[i] = st.Is("ev:rel:"+name+":"+n, flow.True)
+		}
+		return r.or(e)
+	}
+	return c08rel{}
+}
+
+func (m *c08fn) dropRel(st *flow.State, name string) {
+	for _, n := range c08relNames {
+		st.Set("ev:rel:"+name+":"+n, flow.Unknown)
+	}
+}
+
+func (m *c08fn) mirrorRels(st *flow.State) {
+	for _, rs := range m.rels {
+		r := c08relOf(m.f, st, rs.cms)
+		for i, b := range r.bits() {
+			if k := "ev:rel:" + rs.name + ":" + c08relNames[i]; b && !st.Is(k, flow.True) {
+				st.Set(k, flow.True)
+			}
+		}
+	}
+}
+
+// dropWritten forgets the mirrored comparisons that mention a variable or field node n assigns.
+func (m *c08fn) dropWritten(st *flow.State, n ast.Node) {
+	var lhs []ast.Expr
+	switch s := n.(type) {
+	case *ast.AssignStmt:
+		lhs = s.Lhs
+	case *ast.IncDecStmt:
+		lhs = []ast.Expr{s.X}
+	case *ast.RangeStmt:
+		lhs = []ast.Expr{s.Key, s.Value}
+	default:
+		return
+	}
+	for _, l := range lhs {
+		if l == nil {
+			continue
+		}
+		var o types.Object
+		switch x := ast.Unparen(l).(type) {
+		case *ast.Ident:
+			o = c08obj(m.f, x)
+		case *ast.SelectorExpr:
+			if fv, _ := c08sel(m.f, x); fv != nil {
+				o = fv
+			}
+		}
+		if o == nil {
+			continue
+		}
+		for _, rs := range m.rels {
+			if rs.objs[o] {
+				m.dropRel(st, rs.name)
+			}
+		}
+	}
+}
+
+// c08reach is reach() that does not follow the calls to stop (the summarised transition function).
+func c08reach(f *flow.Func, depth int, stop types.Object) []*flow.Func {
+	out := []*flow.Func{f}
+	seen := map[*ast.BlockStmt]bool{f.Body: true}
+	frontier := []*flow.Func{f}
+	for d := 0; d < depth && len(frontier) > 0; d++ {
+		var next []*flow.Func
+		for _, g := range frontier {
+			ast.Inspect(g.Body, func(n ast.Node) bool {
+				call, ok := n.(*ast.CallExpr)
+				if !ok {
+					return true
+				}
+				fo, ok := g.Callee(call).(*types.Func)
+				if !ok || fo.Pkg() != g.Pkg.Types || (stop != nil && fo == stop) {
+					return true
+				}
+				fd := declOf(g.Pkg, fo)
+				if fd == nil || seen[fd.Body] {
+					return true
+				}
+				seen[fd.Body] = true
+				h := flow.NewFunc(g.Pkg, fd)
+				out = append(out, h)
+				next = append(next, h)
+				return true
+			})
+		}
+		frontier = next
+	}
+	return out
+}
+
+func (v *c08env) isCBMethod(fo *types.Func) bool {
+	if fo == nil {
+		return false
+	}
+	recv := fo.Type().(*types.Signature).Recv()
+	if recv == nil {
+		return false
+	}
+	t := recv.Type()
+	if p, ok := t.(*types.Pointer); ok {
+		t = p.Elem()
+	}
+	return types.Identical(t, v.cbT)
 }
 
 func (v *c08env) method(name string) *c08fn {
-	f := fn(v.c, c08cb, "CircuitBreaker", name)
+	fo := v.meth[name]
+	if fo == nil {
+		v.c.Errorf("anchor: role %s of CircuitBreaker not resolved", name)
+		return nil
+	}
+	f := fn(v.c, c08cb, "CircuitBreaker", fo.Name())
 	if f == nil {
 		return nil
 	}
 	fd := f.Node.(*ast.FuncDecl)
 	if fd.Recv == nil || len(fd.Recv.List) != 1 || len(fd.Recv.List[0].Names) != 1 {
-		v.c.Errorf("anchor: %s has no named receiver", fname(c08cb, "CircuitBreaker", name))
+		v.c.Errorf("anchor: %s has no named receiver", fname(c08cb, "CircuitBreaker", fo.Name()))
 		return nil
 	}
 	id := fd.Recv.List[0].Names[0]
-	m := &c08fn{v: v, f: f, fd: fd, cons: fname(c08cb, "CircuitBreaker", name), recv: f.Info.Defs[id], recvR: f.Render(id),
-		aliasDefs: map[types.Object]bool{}}
-	m.defs = c08collectDefs(f, fd.Body)
-	m.stateR = []string{m.recvR + "." + v.fld["state"].Name()}
-	ast.Inspect(fd.Body, func(n ast.Node) bool {
+	m := &c08fn{v: v, f: f, fd: fd, cons: fname(c08cb, "CircuitBreaker", fo.Name()), recv: f.Info.Defs[id], recvR: f.Render(id),
+		aliasDefs: map[types.Object]bool{}, recvs: map[types.Object]bool{}, defs: c08defs{}}
+	var stop types.Object
+	if name != "transitTo" {
+		stop = v.meth["transitTo"]
+		m.inline = inlineSamePkg(f, stop)
+	} else {
+		m.inline = inlineSamePkg(f)
+	}
+	m.bodies = c08reach(f, 3, stop)
+	for _, g := range m.bodies {
+		gd, ok := g.Node.(*ast.FuncDecl)
+		if !ok {
+			continue
+		}
+		for o, ds := range c08collectDefs(g, gd.Body) {
+			m.defs[o] = append(m.defs[o], ds...)
+		}
+		if gd.Recv != nil && len(gd.Recv.List) == 1 && len(gd.Recv.List[0].Names) == 1 {
+			rid := gd.Recv.List[0].Names[0]
+			if go1, _ := f.Info.Defs[gd.Name].(*types.Func); v.isCBMethod(go1) {
+				m.recvs[f.Info.Defs[rid]] = true
+				m.recvRs = append(m.recvRs, f.Render(rid))
+			}
+		}
+	}
+	for _, r := range m.recvRs {
+		m.stateR = append(m.stateR, r+"."+v.fld["state"].Name())
+	}
+	m.nField = len(m.stateR)
+	m.eachNode(func(n ast.Node) bool {
 		id, ok := n.(*ast.Ident)
 		if !ok {
 			return true
@@ -59,13 +251,73 @@ func (v *c08env) method(name string) *c08fn {
 	return m
 }
 
+// eachNode walks the bodies of the method and of its helpers.
+func (m *c08fn) eachNode(visit func(ast.Node) bool) {
+	for _, g := range m.bodies {
+		ast.Inspect(g.Body, func(n ast.Node) bool {
+			if n == nil {
+				return true
+			}
+			return visit(n)
+		})
+	}
+}
+
+func (m *c08fn) nodes() []ast.Node {
+	var out []ast.Node
+	for _, g := range m.bodies {
+		out = append(out, g.Body)
+	}
+	return out
+}
+
+// allCalls lists the call expressions of the method and its helpers (function literals included).
+func (m *c08fn) allCalls() []*ast.CallExpr {
+	var out []*ast.CallExpr
+	for _, g := range m.bodies {
+		out = append(out, calls(g.Body, true)...)
+	}
+	return out
+}
+
+func (m *c08fn) findCmps(withEq bool, a, b func(ast.Expr) bool) []c08cmp {
+	return c08findCmpsIn(m.nodes(), withEq, a, b)
+}
+
+// notInlined names the CircuitBreaker helpers called from the bodies which the engine did not
+// interpret in place (a call form it keeps opaque): the analysis cannot see through them.
+func (m *c08fn) notInlined(res *flow.Result) []string {
+	inl := map[string]bool{}
+	for _, n := range res.Inlined {
+		inl[n] = true
+	}
+	var out []string
+	seen := map[*types.Func]bool{}
+	for _, call := range m.allCalls() {
+		fo, ok := m.f.Callee(call).(*types.Func)
+		if !ok || seen[fo] || fo == m.v.meth["transitTo"] || !m.v.isCBMethod(fo) || fo.Pkg() != m.v.pkg.Types {
+			continue
+		}
+		seen[fo] = true
+		fd := declOf(m.v.pkg, fo)
+		if fd == nil {
+			continue
+		}
+		if !inl[flow.NewFunc(m.v.pkg, fd).Name] {
+			out = append(out, fo.Name())
+		}
+	}
+	sort.Strings(out)
+	return out
+}
+
 func (m *c08fn) isRecvField(e ast.Expr, fv *types.Var) bool {
 	got, base := c08sel(m.f, e)
 	if got == nil || got != fv {
 		return false
 	}
 	id, ok := ast.Unparen(base).(*ast.Ident)
-	return ok && c08obj(m.f, id) == m.recv
+	return ok && m.recvs[c08obj(m.f, id)]
 }
 
 // denotes: e is the receiver's field fv, directly or through a single-assignment alias.
@@ -122,7 +374,7 @@ func (m *c08fn) isTransit(call *ast.CallExpr, callee types.Object) bool {
 		return false
 	}
 	id, ok := ast.Unparen(sel.X).(*ast.Ident)
-	return ok && c08obj(m.f, id) == m.recv
+	return ok && m.recvs[c08obj(m.f, id)]
 }
 
 func (m *c08fn) target(call *ast.CallExpr) string {
@@ -148,16 +400,7 @@ func (m *c08fn) pure(call *ast.CallExpr, callee types.Object) bool {
 	if fo == m.v.meth["transitTo"] {
 		return true
 	}
-	if recv := fo.Type().(*types.Signature).Recv(); recv != nil {
-		t := recv.Type()
-		if p, ok := t.(*types.Pointer); ok {
-			t = p.Elem()
-		}
-		if types.Identical(t, m.v.cbT) {
-			return false
-		}
-	}
-	return true
+	return !m.v.isCBMethod(fo)
 }
 
 // c08transits lists the targets of the transitTo calls executed so far.
@@ -202,15 +445,28 @@ func (m *c08fn) onTransit(st *flow.State, call *ast.CallExpr) {
 		if strings.HasPrefix(k, "ev:") || strings.HasPrefix(k, "engine:") {
 			continue
 		}
+	kill:
 		for _, name := range mut {
-			if strings.Contains(k, m.recvR+"."+m.v.fld[name].Name()) {
-				st.Set(k, flow.Unknown)
-				break
+			for _, r := range m.recvRs {
+				if strings.Contains(k, r+"."+m.v.fld[name].Name()) {
+					st.Set(k, flow.Unknown)
+					break kill
+				}
 			}
 		}
 	}
+	m.clearMirror(st)
+	st.Set("ev:current", flow.Unknown)
+	for _, rs := range m.rels {
+		if !rs.keepOnTransit {
+			m.dropRel(st, rs.name)
+		}
+	}
 	if target != "?" {
-		st.Set("eq:"+m.stateR[0]+"=="+m.v.stateVal[target], flow.True)
+		for _, r := range m.stateR[:m.nField] {
+			st.Set("eq:"+r+"=="+m.v.stateVal[target], flow.True)
+		}
+		m.mirror(st)
 	}
 }
 
@@ -253,13 +509,53 @@ func (m *c08fn) valsOf(st *flow.State, renders []string) map[string]flow.Val {
 	return out
 }
 
-// curVals: what is known about the breaker's state now.
+// curVals: what is known about the breaker's state now — the engine's facts plus their mirror
+// in event keys (see mirror).
 func (m *c08fn) curVals(st *flow.State) map[string]flow.Val {
-	rs := m.stateR[:1]
+	rs := m.stateR[:m.nField]
 	if len(c08transits(st)) == 0 {
 		rs = m.stateR
 	}
-	return m.derive(m.valsOf(st, rs))
+	out := m.valsOf(st, rs)
+	for n := range m.v.stateVal {
+		if x := st.Get("ev:cur:" + n); x != flow.Unknown {
+			out[n] = x
+		}
+	}
+	return m.derive(out)
+}
+
+// mirror copies what the state knows about the breaker's state into event keys, which the
+// engine never kills. Needed because inlining a helper twice from the same state (the two
+// outcomes of `if cb.helper()`) makes the engine forget the caller's facts about the receiver's
+// fields in the second run (the first run's copy-back adds the helper's receiver to their
+// dependencies and the next bind kills them). Sound under the rule's standing assumption that
+// under the lock only transitTo (summarised by onTransit) and direct stores (clearMirror)
+// change the state.
+func (m *c08fn) mirror(st *flow.State) {
+	m.mirrorRels(st)
+	for n, x := range m.curVals(st) {
+		if x != flow.Unknown && st.Get("ev:cur:"+n) != x {
+			st.Set("ev:cur:"+n, x)
+		}
+	}
+}
+
+func (m *c08fn) clearMirror(st *flow.State) {
+	for n := range m.v.stateVal {
+		st.Set("ev:cur:"+n, flow.Unknown)
+	}
+}
+
+// hookNode is the part of OnNode common to the analyses of AcquirePermission and RecordResult.
+func (m *c08fn) hookNode(st *flow.State, n ast.Node) {
+	m.mirror(st) // what was known before this node ...
+	m.dropWritten(st, n)
+	if w, _, _ := m.writeKind(n, m.v.fld["state"]); w {
+		m.clearMirror(st)
+		return
+	}
+	m.mirror(st)
 }
 
 // entryVals: what is known about the state in which the function was entered.
@@ -267,7 +563,7 @@ func (m *c08fn) entryVals(st *flow.State) map[string]flow.Val {
 	if len(c08transits(st)) == 0 {
 		return m.curVals(st)
 	}
-	out := m.valsOf(st, m.stateR[1:])
+	out := m.valsOf(st, m.stateR[m.nField:])
 	for n := range m.v.stateVal {
 		if x := st.Get("ev:entry:" + n); x != flow.Unknown {
 			out[n] = x
@@ -367,22 +663,27 @@ func c08Admission(v *c08env) {
 	f := m.f
 	body := m.fd.Body
 	ctrF, ttF, idF := v.fld["numberOfCallsInHalfOpen"], v.fld["transitTime"], v.fld["stateID"]
-	ctrCmps := c08findCmps(body, false,
+	ctrCmps := m.findCmps(false,
 		func(e ast.Expr) bool { return m.denotes(e, ctrF) },
 		func(e ast.Expr) bool { return m.mentionsPol(e, "PermittedNumberOfCallsInHalfOpen") })
-	waitCmps := c08findCmps(body, false,
+	waitCmps := m.findCmps(false,
 		func(e ast.Expr) bool { return m.mentionsFld(e, ttF) },
 		func(e ast.Expr) bool { return m.mentionsPol(e, "WaitDurationInOpen") })
-	maxCmps := c08findCmps(body, false,
+	maxCmps := m.findCmps(false,
 		func(e ast.Expr) bool { return m.mentionsFld(e, ttF) },
 		func(e ast.Expr) bool { return m.mentionsPol(e, "MaxWaitDurationInHalfOpen") })
-	maxSet := c08findCmps(body, true,
+	maxSet := m.findCmps(true,
 		func(e ast.Expr) bool { return m.denotesPol(e, "MaxWaitDurationInHalfOpen") },
 		func(e ast.Expr) bool { return c08constOf(f, e) != nil })
 	c.Count("R-C08-2:role comparisons resolved", len(ctrCmps)+len(waitCmps)+len(maxCmps)+len(maxSet))
+	m.register("ctr", ctrCmps, false)
+	m.register("wait", waitCmps, false)
+	m.register("max", maxCmps, false)
 
 	// "the timeout is set": the comparison with a constant separates 0 (unset) from a positive duration
-	maxIsSet := func(st *flow.State) bool {
+	var maxIsSetFacts func(st *flow.State) bool
+	maxIsSet := func(st *flow.State) bool { return st.Is("ev:maxset", flow.True) || maxIsSetFacts(st) }
+	maxIsSetFacts = func(st *flow.State) bool {
 		for _, cm := range maxSet {
 			t := c08truth(f, st, cm.node)
 			if t == flow.Unknown {
@@ -409,23 +710,32 @@ func c08Admission(v *c08env) {
 
 	var incNodes []ast.Node
 	var transitCalls []*ast.CallExpr
-	for _, call := range calls(body, true) {
+	for _, call := range m.allCalls() {
 		if m.isTransit(call, f.Callee(call)) {
 			transitCalls = append(transitCalls, call)
 		}
 	}
-	ast.Inspect(body, func(n ast.Node) bool {
-		if n != nil {
-			if w, inc, _ := m.writeKind(n, ctrF); w && inc {
-				incNodes = append(incNodes, n)
-			}
+	m.eachNode(func(n ast.Node) bool {
+		if w, inc, _ := m.writeKind(n, ctrF); w && inc {
+			incNodes = append(incNodes, n)
 		}
 		return true
 	})
 
 	res := analyze(c, f, flow.Config{
-		Pure: m.pure,
+		Pure:   m.pure,
+		Inline: m.inline,
+		AfterAssume: func(st *flow.State, cond ast.Expr, outcome bool) {
+			m.mirror(st)
+			if maxIsSetFacts(st) {
+				st.Set("ev:maxset", flow.True) // the policy is immutable: never dropped
+			}
+		},
 		OnNode: func(st *flow.State, n ast.Node) {
+			m.hookNode(st, n)
+			if maxIsSetFacts(st) {
+				st.Set("ev:maxset", flow.True)
+			}
 			if w, inc, _ := m.writeKind(n, ctrF); w {
 				if inc {
 					c08bump(st, "inc")
@@ -449,11 +759,15 @@ func c08Admission(v *c08env) {
 			}
 		},
 		OnCall: func(st *flow.State, call *ast.CallExpr, callee types.Object, deferred bool) {
+			m.mirror(st)
+			if maxIsSetFacts(st) {
+				st.Set("ev:maxset", flow.True)
+			}
 			if !m.isTransit(call, callee) {
 				return
 			}
 			if len(c08transits(st)) == 0 {
-				r := c08relOf(f, st, waitCmps)
+				r := m.rel(st, "wait")
 				switch {
 				case r.ge || r.gt:
 					st.Set("ev:waitElapsed", flow.True)
@@ -473,6 +787,10 @@ func c08Admission(v *c08env) {
 		return
 	}
 	c08dump("admission", f, res)
+	if ni := m.notInlined(res); len(ni) > 0 {
+		c.Undecide("R-C08-2", m.cons+"|helpers interpreted in place", pos(c, m.fd.Name), "the engine keeps the call(s) to "+strings.Join(ni, ", ")+" opaque; the admission table cannot be read through them")
+		return
+	}
 
 	permOf := func(ex *flow.Exit) flow.Val {
 		var e ast.Expr
@@ -555,7 +873,7 @@ func c08Admission(v *c08env) {
 				}
 				switch {
 				case len(rest) == 0:
-					if r := c08relOf(f, st, ctrCmps); !r.ge {
+					if r := m.rel(st, "ctr"); !r.ge {
 						rows.fail(row, "a call is rejected in HalfOpen although calls < permitted is not excluded (known: counter vs permitted "+r.String()+"): the first permitted trials must be admitted", st)
 					}
 				case len(rest) == 1 && rest[0] == c08Open:
@@ -594,7 +912,7 @@ func c08Admission(v *c08env) {
 				elapsed := flow.Unknown
 				if len(trs) > 0 {
 					elapsed = st.Get("ev:waitElapsed")
-				} else if r := c08relOf(f, st, waitCmps); r.ge || r.gt {
+				} else if r := m.rel(st, "wait"); r.ge || r.gt {
 					elapsed = flow.True
 				} else if r.lt || r.le {
 					elapsed = flow.False
@@ -668,7 +986,7 @@ func c08Admission(v *c08env) {
 	for _, n := range incNodes {
 		for _, st := range res.At[n] {
 			inc.seen("inc")
-			if r := c08relOf(f, st, ctrCmps); !r.lt {
+			if r := m.rel(st, "ctr"); !r.lt {
 				inc.fail("inc", "the trial counter is incremented without calls < permitted being established (known: counter vs permitted "+r.String()+"): more than permittedNumberOfCallsInHalfOpenState calls are admitted, or rejected calls are counted", st)
 			}
 			if m.curVals(st)[c08HalfOpen] != flow.True {
@@ -696,13 +1014,13 @@ func c08Admission(v *c08env) {
 			if m.curVals(st)[c08HalfOpen] != flow.True {
 				tmo.fail("tmo", "AcquirePermission moves the breaker to Open from a state other than HalfOpen", st)
 			}
-			if r := c08relOf(f, st, ctrCmps); !r.ge {
+			if r := m.rel(st, "ctr"); !r.ge {
 				tmo.fail("tmo", "the half-open timeout reopens the breaker before the permitted trial calls have been admitted (known: counter vs permitted "+r.String()+"): with a short maxWaitDurationInHalfOpenState no trial ever gets through", st)
 			}
 			if !maxIsSet(st) {
 				tmo.fail("tmo", "the half-open timeout fires although maxWaitDurationInHalfOpenState is not set (0): the breaker reopens while its trials are still in flight and their results are dropped as stale", st)
 			}
-			if r := c08relOf(f, st, maxCmps); !(r.gt || r.ge) {
+			if r := m.rel(st, "max"); !(r.gt || r.ge) {
 				tmo.fail("tmo", "the half-open timeout reopens the breaker without maxWaitDurationInHalfOpenState having elapsed since the transition", st)
 			}
 			if c08count(st, "inc") != 0 {
@@ -728,7 +1046,6 @@ func c08Record(v *c08env) {
 		return
 	}
 	f := m.f
-	body := m.fd.Body
 	idF := v.fld["stateID"]
 	params := map[types.Object]bool{}
 	for _, fl := range m.fd.Type.Params.List {
@@ -740,40 +1057,96 @@ func c08Record(v *c08env) {
 		id, ok := ast.Unparen(e).(*ast.Ident)
 		return ok && params[c08obj(f, id)]
 	}
-	staleCmps := c08findCmps(body, true, isParam, func(e ast.Expr) bool { return m.denotes(e, idF) })
+	staleCmps := m.findCmps(true, isParam, func(e ast.Expr) bool { return m.denotes(e, idF) })
 	isTotal := func(e ast.Expr) bool {
 		return m.defs.mentions(f, e, func(x ast.Expr) bool { return m.isWinExpr(x, "Total") })
 	}
-	totalCmps := c08findCmps(body, false, isTotal, func(e ast.Expr) bool { return !isTotal(e) })
-	// the threshold variable: the other side of the Total() comparison
-	var thrObj types.Object
+	totalCmps := m.findCmps(false, isTotal, func(e ast.Expr) bool { return !isTotal(e) })
+	// the threshold: the other side of the Total() comparison — a local variable, the policy
+	// field itself, or the result of a same-package helper (then: the variables / policy fields
+	// its return statements yield)
+	thrObjs := map[types.Object]bool{}
+	thrReturns := map[*ast.ReturnStmt]bool{}
 	thrDirectMin := false
+	helperDecl := func(e ast.Expr) *ast.FuncDecl {
+		call, ok := ast.Unparen(e).(*ast.CallExpr)
+		if !ok {
+			return nil
+		}
+		fo, ok := f.Callee(call).(*types.Func)
+		if !ok || fo.Pkg() != v.pkg.Types {
+			return nil
+		}
+		return declOf(v.pkg, fo)
+	}
+	var addThr func(o ast.Expr, depth int)
+	addThr = func(o ast.Expr, depth int) {
+		o = ast.Unparen(o)
+		if gd := helperDecl(o); gd != nil {
+			ast.Inspect(gd.Body, func(n ast.Node) bool {
+				if _, isLit := n.(*ast.FuncLit); isLit {
+					return false
+				}
+				if rs, ok := n.(*ast.ReturnStmt); ok {
+					thrReturns[rs] = true
+					if len(rs.Results) == 1 {
+						if id, ok := ast.Unparen(rs.Results[0]).(*ast.Ident); ok {
+							thrObjs[c08obj(f, id)] = true
+						}
+					}
+				}
+				return true
+			})
+			if gd.Type.Results != nil {
+				for _, fl := range gd.Type.Results.List {
+					for _, n := range fl.Names {
+						thrObjs[f.Info.Defs[n]] = true
+					}
+				}
+			}
+			return
+		}
+		if id, ok := o.(*ast.Ident); ok {
+			obj := c08obj(f, id)
+			thrObjs[obj] = true
+			if depth < 2 {
+				for _, d := range m.defs[obj] {
+					if d != nil && helperDecl(d) != nil {
+						addThr(d, depth+1)
+					}
+				}
+			}
+			return
+		}
+		if m.denotesPol(o, "MinimumNumberOfCalls") {
+			thrDirectMin = true
+		}
+	}
 	for _, cm := range totalCmps {
 		o := cm.node.Y
 		if !cm.aIsX {
 			o = cm.node.X
 		}
-		if id, ok := ast.Unparen(o).(*ast.Ident); ok {
-			thrObj = c08obj(f, id)
-		} else if m.polSel(o, "MinimumNumberOfCalls") {
-			thrDirectMin = true
-		}
+		addThr(o, 0)
 	}
 	isThr := func(e ast.Expr) bool {
-		id, ok := ast.Unparen(e).(*ast.Ident)
-		return ok && thrObj != nil && c08obj(f, id) == thrObj
+		if id, ok := ast.Unparen(e).(*ast.Ident); ok && thrObjs[c08obj(f, id)] {
+			return true
+		}
+		return m.polSel(e, "MinimumNumberOfCalls")
 	}
-	lowerCmps := c08findCmps(body, false, isThr, func(e ast.Expr) bool { return m.mentionsPol(e, "PermittedNumberOfCallsInHalfOpen") })
-	anyExpr := func(e ast.Expr) bool { return true }
-	failCmps := c08findCmps(body, false, func(e ast.Expr) bool { return !m.denotesPol(e, "FailureRateThreshold") },
+	lowerCmps := m.findCmps(false, isThr, func(e ast.Expr) bool { return m.mentionsPol(e, "PermittedNumberOfCallsInHalfOpen") })
+	failCmps := m.findCmps(false, func(e ast.Expr) bool { return !m.denotesPol(e, "FailureRateThreshold") },
 		func(e ast.Expr) bool { return m.denotesPol(e, "FailureRateThreshold") })
-	slowCmps := c08findCmps(body, false, func(e ast.Expr) bool { return !m.denotesPol(e, "SlowCallRateThreshold") },
+	slowCmps := m.findCmps(false, func(e ast.Expr) bool { return !m.denotesPol(e, "SlowCallRateThreshold") },
 		func(e ast.Expr) bool { return m.denotesPol(e, "SlowCallRateThreshold") })
-	_ = anyExpr
 	c.Count("R-C08-4:role comparisons resolved", len(staleCmps)+len(totalCmps)+len(lowerCmps)+len(failCmps)+len(slowCmps))
+	m.register("stale", staleCmps, false)
+	m.register("total", totalCmps, false)
+	m.register("lower", lowerCmps, true)
 
 	var pushCalls, transitCalls []*ast.CallExpr
-	for _, call := range calls(body, true) {
+	for _, call := range m.allCalls() {
 		if m.isWin(call, "Push") {
 			pushCalls = append(pushCalls, call)
 		}
@@ -839,29 +1212,70 @@ func c08Record(v *c08env) {
 		r := rateRel(st, cms, kind)
 		return r.ge || st.Is("ev:"+kind+":ge", flow.True), r.lt || st.Is("ev:"+kind+":lt", flow.True)
 	}
-	thrCheck := func(st *flow.State) {
-		// evaluated where Total() is compared with the threshold
+	// thrVerdict: evaluated once Total() has been compared with the threshold
+	thrVerdict := func(st *flow.State) string {
 		switch {
 		case st.Is("ev:thr:perm", flow.True):
-		case st.Is("ev:thr:min", flow.True) || (thrObj == nil && thrDirectMin):
+		case st.Is("ev:thr:min", flow.True) || (len(thrObjs) == 0 && thrDirectMin):
 			if m.curVals(st)[c08HalfOpen] != flow.False {
-				if r := c08relOf(f, st, lowerCmps); !r.le {
-					st.Set("ev:thr:unlowered", flow.True)
+				if r := m.rel(st, "lower"); !r.le {
+					return "unlowered"
 				}
 			}
 		default:
-			st.Set("ev:thr:unknown", flow.True)
+			return "unknown"
+		}
+		return ""
+	}
+	totalKnown := func(st *flow.State) bool { return m.rel(st, "total") != (c08rel{}) }
+	thrLazy := func(st *flow.State) {
+		if st.Is("ev:thr:checked", flow.True) || !totalKnown(st) {
+			return
+		}
+		st.Set("ev:thr:checked", flow.True)
+		if vd := thrVerdict(st); vd != "" {
+			st.Set("ev:thr:"+vd, flow.True)
+		}
+	}
+	thrBad := func(st *flow.State, what string) bool {
+		if st.Is("ev:thr:"+what, flow.True) {
+			return true
+		}
+		return !st.Is("ev:thr:checked", flow.True) && totalKnown(st) && thrVerdict(st) == what
+	}
+	// setThr records where the threshold value comes from (r: the expression assigned / returned)
+	setThr := func(st *flow.State, r ast.Expr, isReturn bool) {
+		if r != nil && isReturn {
+			if id, ok := ast.Unparen(r).(*ast.Ident); ok && thrObjs[c08obj(f, id)] {
+				return // the variable's provenance was recorded at its assignments
+			}
+		}
+		wasMin := st.Is("ev:thr:min", flow.True) || isReturn
+		st.Set("ev:thr:min", flow.Unknown)
+		st.Set("ev:thr:perm", flow.Unknown)
+		switch {
+		case r != nil && m.denotesPol(r, "MinimumNumberOfCalls"):
+			st.Set("ev:thr:min", flow.True)
+		case r != nil && m.denotesPol(r, "PermittedNumberOfCallsInHalfOpen"):
+			st.Set("ev:thr:perm", flow.True)
+			if m.curVals(st)[c08HalfOpen] != flow.True {
+				st.Set("ev:thr:badlower", flow.True)
+			}
+			if rl := m.rel(st, "lower"); !wasMin || !rl.gt {
+				st.Set("ev:thr:badlower", flow.True)
+			}
 		}
 	}
 
 	res := analyze(c, f, flow.Config{
-		Pure: m.pure,
+		Pure:   m.pure,
+		Inline: m.inline,
 		OnNode: func(st *flow.State, n ast.Node) {
+			m.hookNode(st, n)
 			refresh(st)
-			for _, cm := range totalCmps {
-				if contains(n, cm.node) {
-					thrCheck(st)
-				}
+			thrLazy(st)
+			if rs, ok := n.(*ast.ReturnStmt); ok && thrReturns[rs] && len(rs.Results) == 1 {
+				setThr(st, rs.Results[0], true)
 			}
 			as, ok := n.(*ast.AssignStmt)
 			if !ok {
@@ -889,29 +1303,20 @@ func c08Record(v *c08env) {
 					}
 				}
 				// threshold provenance
-				if thrObj != nil && c08obj(f, id) == thrObj {
-					wasMin := st.Is("ev:thr:min", flow.True)
-					st.Set("ev:thr:min", flow.Unknown)
-					st.Set("ev:thr:perm", flow.Unknown)
-					switch {
-					case r != nil && m.denotesPol(r, "MinimumNumberOfCalls"):
-						st.Set("ev:thr:min", flow.True)
-					case r != nil && m.denotesPol(r, "PermittedNumberOfCallsInHalfOpen"):
-						st.Set("ev:thr:perm", flow.True)
-						if m.curVals(st)[c08HalfOpen] != flow.True {
-							st.Set("ev:thr:badlower", flow.True)
-						}
-						if rl := c08relOf(f, st, lowerCmps); !wasMin || !rl.gt {
-							st.Set("ev:thr:badlower", flow.True)
-						}
-					}
+				if thrObjs[c08obj(f, id)] && (r == nil || helperDecl(r) == nil) {
+					// (a value taken from a helper gets its provenance from the helper's
+					// own assignments / return statements, interpreted in place)
+					setThr(st, r, false)
 				}
 			}
 		},
 		OnCall: func(st *flow.State, call *ast.CallExpr, callee types.Object, deferred bool) {
+			m.mirror(st)
 			refresh(st)
+			thrLazy(st)
 			if m.isWin(call, "Push") {
-				if c08relOf(f, st, staleCmps).eq {
+				m.dropRel(st, "total")
+				if m.rel(st, "stale").eq {
 					st.Set("ev:current", flow.True)
 				}
 				c08bump(st, "push")
@@ -920,12 +1325,16 @@ func c08Record(v *c08env) {
 				m.onTransit(st, call)
 			}
 		},
-		AfterAssume: func(st *flow.State, cond ast.Expr, outcome bool) { refresh(st) },
+		AfterAssume: func(st *flow.State, cond ast.Expr, outcome bool) { m.mirror(st); refresh(st); thrLazy(st) },
 	})
 	if res == nil {
 		return
 	}
 	c08dump("record", f, res)
+	if ni := m.notInlined(res); len(ni) > 0 {
+		c.Undecide("R-C08-4", m.cons+"|helpers interpreted in place", pos(c, m.fd.Name), "the engine keeps the call(s) to "+strings.Join(ni, ", ")+" opaque; the transition table cannot be read through them")
+		return
+	}
 	at := pos(c, m.fd.Name)
 
 	// R-C08-3
@@ -936,7 +1345,9 @@ func c08Record(v *c08env) {
 		states := res.At[call]
 		var bad *flow.State
 		for _, st := range states {
-			if !c08relOf(f, st, staleCmps).eq {
+			// ev:current: the equality was established when the result was pushed and no
+			// transition (the only writer of stateID) has happened since
+			if !m.rel(st, "stale").eq && !st.Is("ev:current", flow.True) {
 				bad = st
 				break
 			}
@@ -975,9 +1386,39 @@ func c08Record(v *c08env) {
 	if errParam == nil || durParam == nil {
 		c.Errorf("R-C08-4: anchor: RecordResult has no (bool, time.Duration) parameters")
 	} else if len(pushCalls) > 0 {
-		durObj := f.Info.Defs[durParam]
-		slowDur := c08findCmps(body, false,
-			func(e ast.Expr) bool { id, ok := ast.Unparen(e).(*ast.Ident); return ok && c08obj(f, id) == durObj },
+		// the flag and the duration may be handed on to a helper: its parameters of the same
+		// types play the same roles (the engine aliases them to the caller's variables)
+		durObjs := map[types.Object]bool{f.Info.Defs[durParam]: true}
+		errIDs := []*ast.Ident{errParam}
+		for _, g := range m.bodies[1:] {
+			if g.Type == nil || g.Type.Params == nil {
+				continue
+			}
+			for _, fl := range g.Type.Params.List {
+				for _, n := range fl.Names {
+					o := f.Info.Defs[n]
+					if o == nil {
+						continue
+					}
+					if b, ok := o.Type().Underlying().(*types.Basic); ok && b.Kind() == types.Bool {
+						errIDs = append(errIDs, n)
+					}
+					if o.Type().String() == "time.Duration" {
+						durObjs[o] = true
+					}
+				}
+			}
+		}
+		errVal := func(st *flow.State) flow.Val {
+			for _, id := range errIDs {
+				if x := st.Get(f.VarKey(id)); x != flow.Unknown {
+					return x
+				}
+			}
+			return flow.Unknown
+		}
+		slowDur := m.findCmps(false,
+			func(e ast.Expr) bool { id, ok := ast.Unparen(e).(*ast.Ident); return ok && durObjs[c08obj(f, id)] },
 			func(e ast.Expr) bool { return m.mentionsPol(e, "SlowCallDurationThreshold") })
 		cl := c08newVerdicts("c")
 		for _, call := range pushCalls {
@@ -997,7 +1438,7 @@ func c08Record(v *c08env) {
 					}
 				}
 				want := ""
-				switch st.Get(f.VarKey(errParam)) {
+				switch errVal(st) {
 				case flow.True:
 					want = "CallResultFailure"
 				case flow.False:
@@ -1044,13 +1485,13 @@ func c08Record(v *c08env) {
 			if len(c08transits(st)) > 0 {
 				vd.fail("t", "a second transition follows "+strings.Join(c08transits(st), ",")+" in the same RecordResult", st)
 			}
-			if r := c08relOf(f, st, totalCmps); !r.ge {
+			if r := m.rel(st, "total"); !r.ge {
 				vd.fail("t", "the breaker changes state although Total() >= required number of calls is not established (known: Total vs threshold "+r.String()+"): it may open/close on fewer than minimumNumberOfCalls results", st)
 			}
 			if st.Is("ev:thr:badlower", flow.True) {
 				vd.fail("t", "the required number of calls is lowered to permittedNumberOfCallsInHalfOpenState outside HalfOpen or without permitted < minimum", st)
 			}
-			if st.Is("ev:thr:unknown", flow.True) {
+			if thrBad(st, "unknown") {
 				thrUnknown = true
 			}
 			fge, flt := known(st, "F")
@@ -1089,7 +1530,7 @@ func c08Record(v *c08env) {
 		}
 		pushes := c08count(st, "push")
 		trs := c08transits(st)
-		current := st.Is("ev:current", flow.True) || c08relOf(f, st, staleCmps).eq
+		current := st.Is("ev:current", flow.True) || m.rel(st, "stale").eq
 		ex4.seen("push")
 		if current && pushes == 0 {
 			ex4.fail("push", "a result whose stateID is current leaves RecordResult without being pushed into the window", st)
@@ -1105,14 +1546,14 @@ func c08Record(v *c08env) {
 			continue
 		}
 		ex4.seen("thr")
-		if st.Is("ev:thr:unlowered", flow.True) {
+		if thrBad(st, "unlowered") {
 			ex4.fail("thr", "in HalfOpen the required number of calls stays at minimumNumberOfCalls although permittedNumberOfCallsInHalfOpenState may be smaller: only the permitted trials are ever recorded, so the breaker can neither close nor reopen", st)
 		}
 		if len(trs) > 0 {
 			continue
 		}
 		ex4.seen("complete")
-		if r := c08relOf(f, st, totalCmps); r.lt {
+		if r := m.rel(st, "total"); r.lt {
 			continue // not enough results yet
 		}
 		fge, flt := known(st, "F")
@@ -1154,7 +1595,6 @@ func c08Transit(v *c08env) {
 		return
 	}
 	f := m.f
-	body := m.fd.Body
 	stateF, ttF, idF, winF, ctrF := v.fld["state"], v.fld["transitTime"], v.fld["stateID"], v.fld["window"], v.fld["numberOfCallsInHalfOpen"]
 	var param *ast.Ident
 	stateT := v.pkg.Types.Scope().Lookup("State").Type()
@@ -1169,18 +1609,56 @@ func c08Transit(v *c08env) {
 		c.Errorf("R-C08-5: anchor: transitTo has no parameter of type State")
 		return
 	}
-	paramObj := f.Info.Defs[param]
-	paramR := f.Render(param)
+	// the target state may be handed on to helpers (resetWindow(state)): their State parameters
+	// are aliases of the same value
+	paramObjs := map[types.Object]bool{f.Info.Defs[param]: true}
+	paramRs := []string{f.Render(param)}
+	for _, g := range m.bodies[1:] {
+		if g.Type == nil || g.Type.Params == nil {
+			continue
+		}
+		for _, fl := range g.Type.Params.List {
+			for _, n := range fl.Names {
+				if o := f.Info.Defs[n]; o != nil && types.Identical(o.Type(), stateT) && n.Name != "_" {
+					// only parameters that receive the target: bound to a target parameter at every call
+					bound := true
+					for _, call := range m.allCalls() {
+						fo, _ := f.Callee(call).(*types.Func)
+						if fo == nil || declOf(v.pkg, fo) != g.Node {
+							continue
+						}
+						idx := 0
+						found := false
+						for _, fl2 := range g.Type.Params.List {
+							for _, n2 := range fl2.Names {
+								if n2 == n && idx < len(call.Args) {
+									if aid, ok := ast.Unparen(call.Args[idx]).(*ast.Ident); ok && paramObjs[c08obj(f, aid)] {
+										found = true
+									}
+								}
+								idx++
+							}
+						}
+						bound = bound && found
+					}
+					if bound {
+						paramObjs[o] = true
+						paramRs = append(paramRs, f.Render(n))
+					}
+				}
+			}
+		}
+	}
 	isParam := func(e ast.Expr) bool {
 		id, ok := ast.Unparen(e).(*ast.Ident)
-		return ok && c08obj(f, id) == paramObj
+		return ok && paramObjs[c08obj(f, id)]
 	}
-	sameCmps := c08findCmps(body, true, isParam, func(e ast.Expr) bool { return m.denotes(e, stateF) })
-	paramVals := func(st *flow.State) map[string]flow.Val { return m.derive(m.valsOf(st, []string{paramR})) }
+	sameCmps := m.findCmps(true, isParam, func(e ast.Expr) bool { return m.denotes(e, stateF) })
+	paramVals := func(st *flow.State) map[string]flow.Val { return m.derive(m.valsOf(st, paramRs)) }
 	typeKnown := func(st *flow.State) string {
 		// what is known about policy.SlidingWindowType: "count", "time" or ""
 		var typeSel []string
-		ast.Inspect(body, func(n ast.Node) bool {
+		m.eachNode(func(n ast.Node) bool {
 			if e, ok := n.(ast.Expr); ok && m.polSel(e, "SlidingWindowType") {
 				typeSel = append(typeSel, f.Render(e))
 			}
@@ -1206,7 +1684,8 @@ func c08Transit(v *c08env) {
 		}
 	}
 	res := analyze(c, f, flow.Config{
-		Pure: func(call *ast.CallExpr, callee types.Object) bool { return true },
+		Pure:   func(call *ast.CallExpr, callee types.Object) bool { return true },
+		Inline: m.inline,
 		OnNode: func(st *flow.State, n ast.Node) {
 			if w, inc, _ := m.writeKind(n, idF); w {
 				if inc {
@@ -1348,14 +1827,27 @@ func c08Transit(v *c08env) {
 	// the state field, stateID and the trial counter are written nowhere else (except the
 	// increment in AcquirePermission checked by R-C08-2)
 	var stray []string
+	inTransit, acquireReach := map[*ast.FuncDecl]bool{}, map[*ast.FuncDecl]bool{}
+	for _, g := range m.bodies {
+		if gd, ok := g.Node.(*ast.FuncDecl); ok {
+			inTransit[gd] = true
+		}
+	}
+	if af := fnOpt(c, c08cb, "CircuitBreaker", v.meth["AcquirePermission"].Name()); af != nil {
+		for _, g := range c08reach(af, 3, v.meth["transitTo"]) {
+			if gd, ok := g.Node.(*ast.FuncDecl); ok {
+				acquireReach[gd] = true
+			}
+		}
+	}
 	for _, file := range v.pkg.Syntax {
 		for _, d := range file.Decls {
 			fd, ok := d.(*ast.FuncDecl)
-			if !ok || fd.Body == nil || fd == m.fd {
+			if !ok || fd.Body == nil || inTransit[fd] {
 				continue
 			}
 			g := flow.NewFunc(v.pkg, fd)
-			inAcquire := v.pkg.TypesInfo.Defs[fd.Name] == v.meth["AcquirePermission"]
+			inAcquire := acquireReach[fd]
 			ast.Inspect(fd.Body, func(n ast.Node) bool {
 				var lhs []ast.Expr
 				switch s := n.(type) {
